@@ -5,6 +5,7 @@ Require Import C12.MemoBase C12.gen.Memoize C12.MemoLaws.
 
 Theorem C12_cached_protocol : forall (S V : Type) (L : lens S V), lens_ok L ->
   forall method nm body a kw (s : S),
+  lvalid s -> (forall r s', body a kw s = (r, s') -> lvalid s') ->
   py__cached method nm body a kw s =
   let K := KFull (name_of_opt nm method) a kw in
   match d_get (dict_of (lget s)) K with
